@@ -36,3 +36,73 @@ def nonempty_positions(r: Seq(CSet), n: Int) -> Bool:
 def vec_ok_prefix(v: Seq(Real), j: Int, n: Int) -> Bool:
     """prefix closure of vec_ok"""
     return implies(0 <= j and j <= n and vec_ok(v, n), vec_ok(v, j))
+
+
+# ---------------------------------------------------------------- rankings (tuples of candidate sets)
+@spec
+def singletons(r: Seq(CSet), n: Int) -> Bool:
+    """the first n positions are single candidates"""
+    return True if n <= 0 else (singletons(r, n - 1) and len(r[n - 1]) == 1)
+
+
+@spec
+def first_reach(r: Seq(CSet), m: Int, j: Int) -> Int:
+    """smallest index i >= j whose position makes the cumulative candidate count reach m
+    (len(r) if none)"""
+    return j if (j >= len(r) or count(r, j + 1) >= m) else first_reach(r, m, j + 1)
+
+
+@lemma(induct="n")
+def count_nonneg(r: Seq(CSet), n: Int) -> Bool:
+    return count(r, n) >= 0
+
+
+@lemma(induct="n")
+def count_mono(r: Seq(CSet), j: Int, n: Int) -> Bool:
+    return implies(0 <= j and j <= n, count(r, j) <= count(r, n))
+
+
+@lemma(induct="n")
+def count_take(r: Seq(CSet), i: Int, n: Int) -> Bool:
+    """counting in a prefix r[:i]"""
+    return implies(0 <= n and n <= i and i <= len(r), count(r[:i], n) == count(r, n))
+
+
+@lemma(induct="n")
+def count_left(a: Seq(CSet), b: Seq(CSet), n: Int) -> Bool:
+    """counting inside the left part of a concatenation"""
+    return implies(0 <= n and n <= len(a), count(a + b, n) == count(a, n))
+
+
+@lemma(induct="n", hint=lambda a, b: count_left(a, b, len(a)))
+def count_append(a: Seq(CSet), b: Seq(CSet), n: Int) -> Bool:
+    """counting across a concatenation"""
+    return implies(0 <= n and n <= len(b), count(a + b, len(a) + n) == count(a, len(a)) + count(b, n))
+
+
+@lemma(induct="n")
+def singletons_prefix(t: Seq(CSet), j: Int, n: Int) -> Bool:
+    return implies(0 <= j and j <= n and singletons(t, n), singletons(t, j))
+
+
+@lemma(induct="n", hint=lambda t, n: singletons_prefix(t, n, len(t)))
+def count_singletons(t: Seq(CSet), n: Int) -> Bool:
+    return implies(0 <= n and n <= len(t) and singletons(t, len(t)), count(t, n) == n)
+
+
+@spec
+def union_upto(r: Seq(CSet), n: Int) -> CSet:
+    """union of the first n positions"""
+    return frozenset() if n <= 0 else (union_upto(r, n - 1) | r[n - 1])
+
+
+@spec
+def lin(t: Seq(CSet), s: CSet) -> Bool:
+    """t is a strict order (sequence of singletons) of exactly the candidates of s"""
+    return len(t) == len(s) and singletons(t, len(t)) and union_upto(t, len(t)) == s
+
+
+@lemma
+def take_snoc(r: Seq(CSet), i: Int) -> Bool:
+    """a prefix extended by the next element is the next prefix"""
+    return implies(0 <= i and i < len(r), r[:i] + (r[i],) == r[:i + 1])
